@@ -570,6 +570,10 @@ def case_args(r):
     modes = ["n"] if r.random() < 0.8 else []
     if not modes:
         c.stdin = rand_stream(r, ndocs=r.choice([1, 2]), depth=1)
+    # the flags that select how the MAIN input is read must not change how --slurpfile / --rawfile / --argjson values are read
+    extra = r.choice([[], [], [], ["s"], ["R"], ["R", "s"], ["stream"], ["stream", "s"]])
+    modes += [m for m in extra if m != "stream"]
+    want_stream = "stream" in extra
     # order: bindings may come before or after the query; positional segments only make sense after it
     r.shuffle(segs)
     before = [s for s in segs if r.random() < 0.6]
@@ -579,6 +583,8 @@ def case_args(r):
         _, kind, name, val = s
         c.long(kind).word(name).word(val)
     add_modes(r, c, modes)
+    if want_stream:
+        c.long("stream")
     c.short(["c"])
     for s in before:
         emit(s)
